@@ -1,2 +1,178 @@
-(* C09 -- placeholder while developing *)
+(* C09 -- analysis never aborts on valid input and returns finite droplets: property theorems only.
+   "Never raises" = CALL-SITE PRECONDITION theorems: the models return explicit error values where the code raises
+   and every partial operation has an explicit domain; the theorems show that the error values are not produced on
+   valid input.  Partial: only exceptions arising at modelled call sites are covered by theorems; everything else
+   is covered by the error-kind sweep of harness/props/C09.py over the public entry points.
+
+   Cartesian: g = grid axes, lab = scipy.ndimage.label's image in raster order (oracle), wf_img = one label per cell,
+   every label 1..n occurs.  Cylindrical: img = labels of the mask, img_pad = labels of the 3x padded mask, volumes
+   divided by pi.  Rendering: diff_vec / dist2 of Model/Grid.v.  Tracking: Model/Tracking.v.  Refinement: Model/Refine.v
+   over the lines GENERATED from refine_droplet. *)
+From Coq Require Import Reals QArith ZArith List Bool.
+Import ListNotations.
+From PD Require Import Model.Grid Model.MergeLoop Model.Locate Model.LocateSym Model.Render Model.Tracking
+  Gen.Gen_analysis Gen.Gen_shapes Gen.Gen_spherical Gen.Gen_droplet_basic Model.Request Model.Totality
+  Proofs.LocateCart Proofs.Render Proofs.Profile Proofs.C03 Proofs.C06 Proofs.C12 Proofs.C19 Proofs.C02.
+From PD Require Import Gen.Gen_refine Model.Refine Proofs.RefineVec Proofs.Refine Proofs.C04.
 From PD Require Import Proofs.C09.
+Local Open Scope Q_scope.
+
+(* ---- rendering: the angle computation of polar_coordinates is defined for EVERY cell, including dist = 0 ---- *)
+Theorem C09_render_angles_total : forall g c idx dist, (1 <= length g <= 3)%nat ->
+  length c = length g -> length idx = length g ->
+  0 <= dist -> dist * dist == dist2 g c (cell_centre g idx) ->
+  exists a, polar_angles (diff_vec g c (cell_centre g idx)) dist = Some a /\ angles_ok a.
+Proof. exact angle_total. Qed.
+Print Assumptions C09_render_angles_total.
+
+Theorem C09_render_cos_theta_total : forall dz dist, 0 <= dist -> dz * dz <= dist * dist ->
+  exists v, cos_theta dz dist = Some v /\ - (1) <= v /\ v <= 1.
+Proof. exact cos_theta_total. Qed.
+Print Assumptions C09_render_cos_theta_total.
+
+(* ... over the reals: never 0/0, always inside the domain of arccos *)
+Theorem C09_render_angle_total_R : forall dx dy dz : R,
+  exists v, cos_theta_R dz (sqrt (dx * dx + dy * dy + dz * dz)) = Some v /\ (-1 <= v <= 1)%R.
+Proof. exact cos_theta_R_total. Qed.
+Print Assumptions C09_render_angle_total_R.
+
+(* ---- locating, Cartesian grids ---- *)
+(* the centre of mass divides by a positive cell count *)
+Theorem C09_cart_count_positive : forall g img k, wf_img g img -> (k < num_labels img)%nat -> 0 < count (members img k).
+Proof. exact cart_count_pos. Qed.
+Print Assumptions C09_cart_count_positive.
+
+(* every merge of the periodic loop divides by a positive volume v_l + v_h *)
+Theorem C09_cart_merge_divisor_positive : forall g img es1 kl kh ax es2, grid_ok g -> wf_img g img ->
+  edges g img = es1 ++ (kl, kh, ax) :: es2 ->
+  let st := merge_all (shapeN g) (init_state (pos0 img) (vol0 g img)) es1 in
+  0 < mvol st (cl st kl) + mvol st (cl st kh).
+Proof. exact cart_merge_divisor_pos. Qed.
+Print Assumptions C09_cart_merge_divisor_positive.
+
+(* every candidate: position of the grid's dimension, volume > 0 (argument of SphericalDroplet.from_volume) *)
+Theorem C09_cart_located_finite : forall g lab, grid_ok g -> wf_img g (mk_limage (gshape g) lab) ->
+  forall c, In c (candidates g lab) -> length (fst c) = length g /\ 0 < snd c.
+Proof. exact cart_located_finite. Qed.
+Print Assumptions C09_cart_located_finite.
+
+(* no cluster: empty emulsion (the early return), nothing is computed *)
+Theorem C09_cart_empty : forall g lab, num_labels (mk_limage (gshape g) lab) = 0%nat -> candidates g lab = [].
+Proof. exact cart_empty. Qed.
+Print Assumptions C09_cart_empty.
+
+(* ---- locating, polar / spherical grids ---- *)
+Theorem C09_radial_total : forall r_lo dr m, 0 < dr ->
+  locate_radial r_lo dr m = None \/ exists r, locate_radial r_lo dr m = Some r /\ r_lo < r.
+Proof. exact radial_total. Qed.
+Print Assumptions C09_radial_total.
+
+(* ---- locating, cylindrical grids ---- *)
+(* the internal spanning signal (a RuntimeError) can only be raised for the PADDED image, where it is caught *)
+Theorem C09_cyl_unpadded_never_spans : forall g img, unpadded g img -> cyl_single g img <> Spanning.
+Proof. exact cyl_unpadded_never_spans. Qed.
+Print Assumptions C09_cyl_unpadded_never_spans.
+
+Theorem C09_cyl_candidates_total : forall g img_pad img, unpadded g img ->
+  exists ds, cyl_single g img = Found ds /\
+    (cyl_candidates g img_pad img = ds \/
+     exists dp, cg_per g = true /\ cyl_single g img_pad = Found dp /\ cyl_candidates g img_pad img = cyl_window g dp).
+Proof. exact cyl_candidates_total. Qed.
+Print Assumptions C09_cyl_candidates_total.
+
+(* no cluster on the symmetry axis: empty emulsion on every code path, no exception (defect F5) *)
+Theorem C09_cyl_empty_if_off_axis : forall g img_pad img,
+  (forall k, on_axis (members img k) = false) -> (forall k, on_axis (members img_pad k) = false) ->
+  cyl_candidates g img_pad img = [].
+Proof. exact cyl_empty_if_off_axis. Qed.
+Print Assumptions C09_cyl_empty_if_off_axis.
+
+(* every candidate of one call comes from a non-empty cluster (divisor of the mean z index) and has volume > 0 *)
+Theorem C09_cyl_located_finite : forall g img ds, cyl_ok g -> r_nonneg img -> cyl_single g img = Found ds ->
+  forall d, In d ds -> 0 < snd d /\
+    exists k, (k < num_labels img)%nat /\ d = cyl_droplet g (members img k) /\ 0 < count (members img k).
+Proof. exact cyl_located_finite. Qed.
+Print Assumptions C09_cyl_located_finite.
+
+Theorem C09_cyl_candidates_finite : forall g img_pad img, cyl_ok g -> r_nonneg img -> r_nonneg img_pad ->
+  forall d, In d (cyl_candidates g img_pad img) -> 0 < snd d.
+Proof. exact cyl_candidates_finite. Qed.
+Print Assumptions C09_cyl_candidates_finite.
+
+(* ---- candidates become droplets: from_volume of a volume >= 0 is a radius >= 0 with that volume (d = 1, 2, 3);
+        a positive volume gives a positive radius ---- *)
+Theorem C09_from_volume_finite : forall v : R, (0 <= v)%R ->
+  ((0 <= drop_from_volume_1 v)%R /\ drop_volume_1 (drop_from_volume_1 v) = v) /\
+  ((0 <= drop_from_volume_2 v)%R /\ drop_volume_2 (drop_from_volume_2 v) = v) /\
+  ((0 <= drop_from_volume_3 v)%R /\ drop_volume_3 (drop_from_volume_3 v) = v).
+Proof. exact from_volume_finite. Qed.
+Print Assumptions C09_from_volume_finite.
+
+Theorem C09_from_volume_positive : forall v : R, (0 < v)%R ->
+  (0 < drop_from_volume_1 v)%R /\ (0 < drop_from_volume_2 v)%R /\ (0 < drop_from_volume_3 v)%R.
+Proof. exact from_volume_pos. Qed.
+Print Assumptions C09_from_volume_positive.
+
+(* ---- refinement: the start vector handed to least_squares meets all its preconditions (shapes, lo < hi,
+        lo <= x0 <= hi), so scipy's ValueError cannot occur -- with fitted intensities under the exact hypothesis
+        vmin < vmax on the effective levels (known finding F20 otherwise) ---- *)
+Theorem C09_refine_start_feasible : forall g st vmin_o vmax_o adjust c p,
+  wf c -> valid g c ->
+  prepare g st vmin_o vmax_o adjust c = inr p ->
+  (adjust = false \/ p_vmin p < p_vmax p) ->
+  lsq_precondition (p_x0 p) (p_lo p) (p_hi p) = None /\
+  within (p_lo p) (p_x0 p) (p_hi p) = true /\ strict (p_lo p) (p_hi p) = true.
+Proof. exact refine_start_feasible. Qed.
+Print Assumptions C09_refine_start_feasible.
+
+(* no error value: matching dimension, defined levels (F23 otherwise), valid candidate; lsq_spec is the visible
+   premise on the optimiser *)
+Theorem C09_refine_ok : forall lsq hyp dev g st vmin_o vmax_o adjust c,
+  lsq_spec lsq -> wf c -> valid g c -> length (d_pos c) = g_dim g ->
+  (exists vmin vmax, levels vmin_o vmax_o st = Some (vmin, vmax) /\ (adjust = false \/ vmin < vmax)) ->
+  exists r, refine lsq hyp dev g st vmin_o vmax_o adjust c = ROk r.
+Proof. exact refine_ok. Qed.
+Print Assumptions C09_refine_ok.
+
+(* ---- tracking: Ok for every history incl. frames without droplets, both methods, every cut-off ---- *)
+Theorem C09_track_total : forall m frames, exists trs, track_all m frames = Ok trs.
+Proof. exact c06_total. Qed.
+Print Assumptions C09_track_total.
+
+(* ... and the guard `if tracks_alive and len(emulsion) > 0` is what makes it so (defect F4) *)
+Theorem C09_unguarded_distance_fails :
+  dist_frame_unguarded (fun _ _ => 1) None 1 1 0 [0%nat] [t_new (0, (0%nat, 0%nat))] = Err ECdistEmpty.
+Proof. exact unguarded_fails. Qed.
+Print Assumptions C09_unguarded_distance_fails.
+
+(* ---- the documented errors: exactly two sources in the generated guards, both ValueError ---- *)
+Theorem C09_documented_errors :
+  (forall r, (1 <= rq_dim r <= 3)%Z ->
+     (locate_error r = Some ModesInOneDimension <-> (0 < rq_modes r /\ rq_dim r = 1)%Z) /\
+     (locate_error r = None <-> ~ (0 < rq_modes r /\ rq_dim r = 1)%Z) /\
+     (forall cands, locate_unrefined r cands = RaiseValueError <-> locate_error r = Some ModesInOneDimension) /\
+     (forall cands, locate_error r = None -> exists ds, locate_unrefined r cands = Located ds /\ length ds = length cands)) /\
+  (forall dd gd,
+     (render_error_of dd gd = Some DimensionMismatch <-> dd <> gd) /\
+     (render_error_of dd gd = None <-> dd = gd) /\
+     (render_guard dd gd = None \/ render_guard dd gd = Some ValueError)) /\
+  (forall r, locate_error r = None \/ locate_error r = Some ModesInOneDimension) /\
+  (forall dd gd, render_error_of dd gd = None \/ render_error_of dd gd = Some DimensionMismatch).
+Proof. exact documented_errors. Qed.
+Print Assumptions C09_documented_errors.
+
+(* the tracking branch of the outcome function used by the error-kind correspondence is constantly "ok" *)
+Theorem C09_track_outcome_ok : forall distance cutoff frames, model_outcome (CallTrack distance cutoff frames) = ObsOk.
+Proof. exact model_outcome_track. Qed.
+Print Assumptions C09_track_outcome_ok.
+
+(* non-vacuity: a periodic cylinder whose mask has an on-axis cluster joined across the boundary by an off-axis
+   cell (hypotheses unpadded / r_nonneg / cyl_ok hold; one candidate of volume 7 pi at z = 1/6); the doubly periodic
+   3 x 3 image of defect F1b (grid_ok, wf_img; one candidate) *)
+Example C09_nonvacuous :
+  (cyl_ok ex_cgrid /\ unpadded ex_cgrid ex_cimg /\ r_nonneg ex_cimg /\ r_nonneg ex_cimg_pad /\
+   (exists ds, cyl_single ex_cgrid ex_cimg = Found ds /\ map qred2 ds = [(1 # 2, 4)]) /\
+   map qred2 (cyl_candidates ex_cgrid ex_cimg_pad ex_cimg) = [(1 # 6, 7)]) /\
+  (grid_ok ex_grid2 /\ wf_img ex_grid2 (mk_limage (gshape ex_grid2) [0;1;0; 2;0;3; 2;2;0]%nat) /\
+   length (candidates ex_grid2 [0;1;0; 2;0;3; 2;2;0]%nat) = 1%nat).
+Proof. exact (conj ex_cyl_facts ex_cart_facts). Qed.
